@@ -224,6 +224,50 @@ def ob_quad_frobenius(fld):
                       "all operands (unbounded integers)", build)
 
 
+def ob_quad_frobenius_concrete(fld):
+    """quadratic Frobenius at the machine level (no ring abstraction): the real MIR with the base field's add / neg INLINED.
+    Decides the representation invariant of the result (what the ring abstraction cannot see: a raw write into the element's
+    field makes that mode answer `not encodable`) and the residue relation, for every pair of internal representations."""
+    F = FIELDS[fld]
+    M, rep = F["M"], F["rep"]
+    from .c07 import _v
+    from ..mirsmt.terms import nat, Lt
+
+    def build(prog):
+        s0, s1 = _v("x0", F["ty"]), _v("x1", F["ty"])
+        fn = find(prog, fld, "ExtensibleField", "frobenius", targs="2")
+        ex, r = run(prog, fn, [arr([X.elem(s0), X.elem(s1)])])
+        if not isinstance(r, X.Agg) or len(r.items) != 2:
+            raise NotEncodable("frobenius result is not a pair")
+        outs = [(it.t if isinstance(it, X.Sc) else X.inner(it)) for it in r.items]
+        X0, X1 = nat(s0.t), nat(s1.t)
+        R0, R1 = nat(outs[0]), nat(outs[1])
+        in_rep = And(Lt(R0, intc(rep)), Lt(R1, intc(rep)))
+        rel0 = Or(*[Eq(R0 + intc(k * M), X0 + X1) for k in range(-1, 5)])
+        rel1 = Or(*[Eq(R1 + X1, intc(k * M)) for k in range(0, 5)])
+        rng = {"x0": (0, rep - 1), "x1": (0, rep - 1)}
+        qs = [Query("representation_and_residues", [], And(in_rep, rel0, rel1), rng,
+                    locate=[("result_outside_representation_range", in_rep), ("coeff0", rel0), ("coeff1", rel1)])]
+        from ..mirsmt.lib import nopanic
+        q2 = nopanic(ex, [], rng)
+        if q2:
+            qs.append(q2)
+        val = Validation(f"{fld} ext2_frobenius", ["x0", "x1"], outs, rng, special=[0, 1, 2, M - 1, M, M + 1, rep - 1, (M - 1) // 2], n=60)
+
+        def lift(q, env):
+            v0, v1 = env["x0"], env["x1"]
+            exp = {"kind": "any", "of": [{"kind": "tok_ge", "index": 0, "value": rep}, {"kind": "tok_ge", "index": 1, "value": rep},
+                                         {"kind": "tok_mod_ne", "index": 0, "value": (v0 + v1) % M, "mod": M},
+                                         {"kind": "tok_mod_ne", "index": 1, "value": (-v1) % M, "mod": M}]}
+            return Replay([f"{fld} ext2_frobenius {v0} {v1}"], exp, f"{fld}::ext2_frobenius/concrete",
+                          f"{fld} quadratic frobenius returns a coefficient outside the representation range or with the wrong residue")
+        return Built(qs, short_fns(ex), [val], lift, note="machine-level twin of the ring-abstraction obligation")
+    return Obligation(f"c08_{fld}_ext2_frobenius_machine", "C08",
+                      f"{fld} quadratic frobenius at the machine level: both result coefficients stay inside the representation range "
+                      f"([0,M) resp. [0,2M)) and are congruent to (a0+a1, -a1) modulo M, for every pair of internal representations",
+                      "all pairs of internal representations, full width", build)
+
+
 def ob_cubic_frobenius(fld):
     F = FIELDS[fld]
     red = RED[(fld, 3)]
@@ -381,6 +425,8 @@ def obligations(tier):
         for meth in ("mul", "square", "mul_base"):
             obs.append(ob_trait(fld, deg, meth))
         obs.append(ob_quad_frobenius(fld) if deg == 2 else ob_cubic_frobenius(fld))
+        if deg == 2:
+            obs.append(ob_quad_frobenius_concrete(fld))
         for meth in ("add", "sub", "neg", "double", "mul", "square", "mul_base", "conjugate", "from_base"):
             obs.append(ob_wrapper(fld, deg, meth))
     return obs
